@@ -88,6 +88,19 @@ func samePoints(a, b orb.LineString) bool {
 
 // distance from p to the polyline (planar, in coordinate units)
 func distToLine(p orb.Point, ls orb.LineString) float64 {
+	// rescale by a power of two (exact) so that squares neither underflow nor overflow
+	m := math.Max(math.Abs(p[0]), math.Abs(p[1]))
+	for _, q := range ls {
+		m = math.Max(m, math.Max(math.Abs(q[0]), math.Abs(q[1])))
+	}
+	if m > 0 && (m < 0x1p-200 || m > 0x1p200) {
+		_, e := math.Frexp(m)
+		sc := make(orb.LineString, len(ls))
+		for i, q := range ls {
+			sc[i] = orb.Point{math.Ldexp(q[0], -e), math.Ldexp(q[1], -e)}
+		}
+		return math.Ldexp(distToLine(orb.Point{math.Ldexp(p[0], -e), math.Ldexp(p[1], -e)}, sc), e)
+	}
 	best := math.Inf(1)
 	for i := 0; i+1 < len(ls); i++ {
 		a, b := ls[i], ls[i+1]
@@ -196,11 +209,17 @@ func checkCase(c Case) error {
 		return nil
 	}
 
-	scale := 0.0
+	// tolerance relative to the line itself (no absolute "1 +" term, which would make every check vacuous for
+	// lines at a tiny scale): 1e-9 of the line's extent plus a few ulps of its coordinate magnitude.
+	scale, lo, hi := 0.0, orig[0], orig[0]
 	for _, p := range orig {
 		scale = math.Max(scale, math.Max(math.Abs(p[0]), math.Abs(p[1])))
+		for k := 0; k < 2; k++ {
+			lo[k], hi[k] = math.Min(lo[k], p[k]), math.Max(hi[k], p[k])
+		}
 	}
-	tol := 1e-9 * (1 + scale)
+	extent := math.Max(hi[0]-lo[0], hi[1]-lo[1])
+	tol := 1e-9*extent + 64*0x1p-52*scale
 
 	// endpoints bit-equal
 	if math.Float64bits(out[0][0]) != math.Float64bits(orig[0][0]) || math.Float64bits(out[0][1]) != math.Float64bits(orig[0][1]) {
@@ -218,6 +237,14 @@ func checkCase(c Case) error {
 			target = total * float64(k) / float64(N-1)
 		}
 		e := expectedAt(orig, dists, target)
+		if k == 0 {
+			e = orig[0]
+		}
+		if total == 0 {
+			// distinct vertices whose measured length is 0: every arc-length position is 0 = total, so any
+			// point of the line is at the right place; only the end points (above) and "on the line" (below) bind.
+			e = p
+		}
 		if math.Abs(p[0]-e[0]) > tol || math.Abs(p[1]-e[1]) > tol {
 			// a target that falls within rounding of a vertex may legitimately be
 			// attributed to either neighbouring segment: both candidates are within
@@ -246,6 +273,12 @@ func genLine(t *rapid.T, geoCoords bool) (orb.LineString, bool) {
 	coincident := shape == 3
 	tiny := shape == 4 // distinct vertices whose measured length underflows to (nearly) zero
 	lattice := rapid.Bool().Draw(t, "lattice")
+	// planar lines are also generated at other length scales (exact power-of-two scaling: 1e-18 .. 1e18):
+	// nothing in the property depends on the unit of length.
+	pow := 0
+	if !geoCoords && rapid.IntRange(0, 2).Draw(t, "rescale") == 0 {
+		pow = rapid.IntRange(-60, 60).Draw(t, "pow2")
+	}
 	ls := make(orb.LineString, n)
 	for i := range ls {
 		var p orb.Point
@@ -261,6 +294,9 @@ func genLine(t *rapid.T, geoCoords bool) (orb.LineString, bool) {
 		}
 		if tiny {
 			p = orb.Point{float64(rapid.IntRange(0, 3).Draw(t, "tx")) * 1e-200, float64(rapid.IntRange(0, 3).Draw(t, "ty")) * 1e-170}
+		}
+		if pow != 0 && !tiny {
+			p = orb.Point{math.Ldexp(p[0], pow), math.Ldexp(p[1], pow)}
 		}
 		ls[i] = p
 		if i > 0 && (coincident || rapid.IntRange(0, 5).Draw(t, "rep") == 0) {
